@@ -112,6 +112,12 @@ def integrate_instances(tier, prop):
         out.append(dict(id="integrate-euler-n-dense-N2-two-calls-flip-direction", kind="integrate", family="euler", events=["n"], dense=True, N=2,
                         max_reports=2, two_calls=True, flip_direction=True, budget=b))
     if prop == "C08":
+        # REAL detector and root finder, two calls; the event reads its level from the constants, which are replaced between the calls
+        for al in ((1.0,) if quick else (1.0, -1000.0, 1e-3)):
+            for dense in (True, False):
+                out.append(dict(id="e2e-euler-a%g-%s-level-changed-between-calls" % (al, "dense" if dense else "nodense"), kind="e2e", family="euler", alpha=al,
+                                dense=dense, level_change_two_calls=True, budget=b))
+    if prop == "C08":
         # three steps with dense_output=False: from the third step on the interpolants of old steps have been pruned
         out.append(dict(id="integrate-euler-n-nodense-N3", kind="integrate", family="euler", events=["n"], dense=False, N=3, max_reports=2, budget=b))
     if prop in ("C08", "C09"):
